@@ -98,6 +98,20 @@ CHECKS = {
         'A path is never both leaf and namespace within a sequence; dynamic namespaces carry no namespace validator; nothing is emitted onto a declared namespace name.',
         'DESIGN.md section 3 C12',
     ),
+    'C14': (
+        'exploration',
+        'stateful / model-based property testing: generated operation histories applied to both persisters and to a dict model (differential + reference model)',
+        'Histories of up to 40 save/load/list/delete/delete-pid/progress/run-loaded operations over 3 live processes, a never-saved pid and 3 tags, for int, UUID and string pids: every call result (or exception) of each persister must equal the dict model that keeps the harness-made deep copy from save time; loads must be structurally equal to that copy even after the live process progressed or a loaded copy was run to completion; listings compared as sets; the two persisters must agree. All pairs of operations after a fixed prefix are enumerated.',
+        'pids/tags of one kind per history, separator-free strings; PicklePersister works in a private temporary directory.',
+        'DESIGN.md section 3 C14',
+    ),
+    'C15': (
+        'exploration',
+        'model-based property testing: enumerated rule sets over a prefix-colliding source tree plus Hypothesis-generated trees/rules/options, compared with an independent rule-selection model; metamorphic independence test by mutating both sides',
+        'The destination port tree (names, kinds and every port attribute) after expose_inputs / expose_outputs / absorb must equal the model: exactly the selected ports under the target namespace, source namespace properties overridden by namespace options, non-colliding destination ports untouched, include+exclude and unsupported options rejected with ValueError; afterwards every settable attribute of every port on one side is changed and ports are added/removed, and the other side must not change.',
+        'No rule is an ancestor of another in the same set; colliding destination ports are replaced.',
+        'DESIGN.md section 3 C15',
+    ),
 }
 
 PENDING = {f'C{n:02d}': 'check not built yet in this round (see DESIGN.md section 9 for the build order)' for n in range(1, 21)}
